@@ -108,7 +108,7 @@ def run(ctx):
     # encoding reads its input, so sharing a value between goroutines changes nothing
     nshared = 3 if ctx.quick else 12
     for n in range(nshared):
-        fam = ["RespGetBig", "RespGet", "ReqLocate"]
+        fam = ["RespGetBig", "RespGetCarved", "ReqLocate"] if n % 2 == 0 else ["RespGetBig", "RespGet", "RespGetCarved"]
         procs = [[call(fam[(g + i) % len(fam)], (n + 4) % 5, "enc", ENCS[(n + i) % 3]) for i in range(len(fam))] for g in range(8)]
         jobs.append({"id": "shared-values-%d" % n, "job": {"mode": "free", "shared": True, "reps": 150 if ctx.quick else 400, "procs": procs}})
     jpath = os.path.join(ctx.work, "jobs.ndjson")
